@@ -219,3 +219,42 @@ Proof.
   rewrite <- P in Hd2. rewrite firstn_app_len in Hd2 by lia.
   rewrite <- P, Hd2 in P2. apply app_inv_head in P2. auto.
 Qed.
+
+(* ---------- decoding into a buffer: the payload is appended to the filled region ---------- *)
+From Ufw Require Import Proof.ByteBufferLemmas Proof.ListLemmas.
+
+Lemma filled_after_append b d : bb_inv b -> N.of_nat (length d) <= bb_avail b ->
+  let b' := {| bb_mem := blit (bb_mem b) (N.to_nat (bb_used b)) d; bb_size := bb_size b; bb_used := bb_used b + N.of_nat (length d); bb_offset := bb_offset b |} in
+  bb_filled b' = bb_filled b ++ d /\ bb_inv b'.
+Proof.
+  intros Hi Ha. destruct (add_accepted b d (N.of_nat (length d)) Hi Ha ltac:(lia)) as (b1 & A & F & O & U & S & _ & _ & I).
+  unfold bb_add in A. destruct (N.ltb_spec (bb_avail b) (N.of_nat (length d))); [lia|]. injection A as <-.
+  rewrite Nat2N.id, firstn_all in *. cbv zeta. split; [exact F|exact I].
+Qed.
+
+Theorem buffer_from_source_fixed k s b n payload r c s' b' :
+  k <> LVar -> n <= lk_max k -> N.of_nat (length payload) = n -> bb_inv b ->
+  s_stream s = lenp_prefix k n ++ payload ++ r ->
+  lenp_buffer_from_source k s b = Some (DOk c, s', b') ->
+  c = n /\ bb_filled b' = bb_filled b ++ payload /\ bb_offset b' = bb_offset b /\ bb_size b' = bb_size b /\ s_stream s' = r /\ bb_inv b'.
+Proof.
+  intros Hk Hm Hl Hi Hs H. unfold lenp_buffer_from_source in H.
+  destruct (lenp_memory_from_source k s (bb_avail b)) as [[[rc d] s1]|] eqn:M; [|discriminate].
+  destruct rc as [c1|e]; [|discriminate]. injection H as <- <- <-.
+  destruct (memory_from_source_fixed _ _ _ _ _ _ _ _ _ Hk Hm Hl Hs M) as (-> & -> & Hr & Hn).
+  rewrite <- Hl in Hn. destruct (filled_after_append b payload Hi Hn) as [F I]. cbv zeta in F, I. rewrite Hl in *.
+  split; [reflexivity|]. split; [exact F|]. split; [reflexivity|]. split; [reflexivity|]. split; [exact Hr|exact I].
+Qed.
+
+(* destination buffer too small: an error, and the buffer is as it was *)
+Theorem buffer_from_source_enomem k s b n payload r rc s' b' :
+  k <> LVar -> n <= lk_max k -> s_stream s = lenp_prefix k n ++ payload ++ r -> bb_avail b < n ->
+  lenp_buffer_from_source k s b = Some (rc, s', b') ->
+  (forall c, rc <> DOk c) /\ b' = b.
+Proof.
+  intros Hk Hm Hs Hlt H. unfold lenp_buffer_from_source in H.
+  destruct (lenp_memory_from_source k s (bb_avail b)) as [[[rc1 d] s1]|] eqn:M; [|discriminate].
+  destruct (memory_from_source_enomem _ _ _ _ _ _ _ _ _ Hk Hm Hs Hlt M) as [Hne ->].
+  destruct rc1 as [c1|e]; [exfalso; apply (Hne c1); reflexivity|]. injection H as <- <- <-.
+  split; [discriminate|]. unfold bb_with_mem. cbn [blit]. destruct b; reflexivity.
+Qed.
